@@ -4,6 +4,7 @@ package c10
 
 import (
 	"fmt"
+	"sort"
 	"strings"
 	"testing"
 
@@ -21,10 +22,13 @@ import (
 // Op is a later write on one of the two sides.
 type Op struct {
 	OnSrc bool   `json:"onsrc,omitempty"`
-	Kind  int    `json:"kind"` // 0 SetInt 1 Remove 2 Merge(append) 3 SetString idx 4 SetChild 5 Merge(replace)
+	Kind  int    `json:"kind"` // 0 SetInt 1 Remove 2 Merge(append) 3 SetString idx 4 SetChild 5 Merge(replace) 6 write through a Child handle 7 merge of an object at Name 8 merge from the other side 9 read
 	Name  string `json:"name"`
 	Idx   int    `json:"idx"`
+	Read  int    `json:"read,omitempty"` // kind 9: the read (see doRead); kind 6: the write applied to the handle
 }
+
+const nOpKinds = 10
 
 type Case struct {
 	Src     *gen.Tree    `json:"src"`
@@ -44,7 +48,15 @@ type Case struct {
 	// Adopted: a section that belongs to another configuration (where it is called "orig") is also stored inside
 	// the source's object "sub" under the name "alias" (SetChild of a config that has a parent already)
 	Adopted bool `json:"adopted,omitempty"`
-	Ops     []Op         `json:"ops"`
+	// Pre: reads applied to the source (or to the destination, where it exists before the merge) BEFORE the merge
+	Pre []Read `json:"pre,omitempty"`
+	// PreOps: writes (and reads) applied to the source / to the destination BEFORE the merge: the source is not
+	// fresh from NewFrom but has a history
+	PreOps []Op `json:"preops,omitempty"`
+	// KeepHandles: before the merge (after the history above) a Child handle is taken for every top-level setting
+	// of the source and of the destination that can be had as one; later writes may go through them
+	KeepHandles bool `json:"keephandles,omitempty"`
+	Ops         []Op `json:"ops"`
 }
 
 var keys = []string{"a", "b", "sub", "l", "c", "a", "b", "0", "1"} // numeric names: nodes with named and indexed settings
@@ -68,10 +80,47 @@ func genCase(t *rapid.T) Case {
 	c.Adopted = rapid.IntRange(0, 3).Draw(t, "adopted") == 0
 	c.SrcMeta = rapid.IntRange(0, 2).Draw(t, "srcmeta") == 0
 	c.MergeMeta = rapid.IntRange(0, 2).Draw(t, "mergemeta") == 0
+	// the source as the library sees it (the reference settings are added by run)
+	srcTree := c.Src
+	if c.Refs {
+		srcTree = c.Src.Clone()
+		srcTree.Put("r1", gen.Str("${a}"))
+		srcTree.Put("r3", gen.Str("${sub}"))
+	}
+	for i, np := 0, rapid.IntRange(0, 3).Draw(t, "npreops"); i < np; i++ {
+		op := Op{OnSrc: rapid.IntRange(0, 3).Draw(t, "preoponsrc") != 0, Kind: rapid.SampledFrom([]int{0, 1, 2, 3, 4, 5, 6, 7, 9}).Draw(t, "preopkind")}
+		tr := c.Dst
+		if op.OnSrc {
+			tr = srcTree
+		}
+		op.Name, op.Idx = genPath(t, tr, "preop")
+		op.Read = rapid.IntRange(0, 59).Draw(t, "preopread")
+		c.PreOps = append(c.PreOps, op)
+	}
+	for i, np := 0, rapid.IntRange(0, 4).Draw(t, "npre"); i < np; i++ {
+		rd := Read{OnSrc: rapid.IntRange(0, 3).Draw(t, "preonsrc") != 0, Kind: rapid.IntRange(0, nReadKinds-1).Draw(t, "prekind")}
+		tr := c.Dst
+		if rd.OnSrc {
+			tr = srcTree
+		}
+		rd.Name, rd.Idx = genPath(t, tr, "pre")
+		c.Pre = append(c.Pre, rd)
+	}
+	c.KeepHandles = rapid.IntRange(0, 2).Draw(t, "keephandles") == 0
 	n := rapid.IntRange(1, 6).Draw(t, "nops")
 	for i := 0; i < n; i++ {
-		c.Ops = append(c.Ops, Op{OnSrc: rapid.Bool().Draw(t, "onsrc"), Kind: rapid.IntRange(0, 5).Draw(t, "kind"),
-			Name: rapid.SampledFrom(opNames).Draw(t, "name"), Idx: rapid.SampledFrom([]int{-1, -1, 0, 1, 3}).Draw(t, "idx")})
+		op := Op{OnSrc: rapid.Bool().Draw(t, "onsrc"), Kind: rapid.IntRange(0, nOpKinds-1).Draw(t, "kind")}
+		// names: settings of the source tree (they exist on both sides after the merge), of the destination tree,
+		// or the fixed list
+		tr := srcTree
+		if rapid.IntRange(0, 3).Draw(t, "dstname") == 0 {
+			tr = c.Dst
+		}
+		op.Name, op.Idx = genPath(t, tr, "op")
+		if op.Kind == 6 || op.Kind == 9 {
+			op.Read = rapid.IntRange(0, 59).Draw(t, "opread")
+		}
+		c.Ops = append(c.Ops, op)
 	}
 	return c
 }
@@ -148,10 +197,33 @@ func embed(kind int, s *ucfg.Config) (interface{}, bool) {
 }
 
 type side struct {
-	name string
-	c    *ucfg.Config
-	fp   string
-	dump string
+	name     string
+	c        *ucfg.Config
+	fp       string
+	dump     string
+	view     string // publicView: every setting entered as an object through the public API
+	deep     uint64 // deepHash: everything reachable, all fields; taken by mark immediately before a step on the other side
+	deepText string
+}
+
+// mark remembers the complete reachable state of this side; untouched compares with it. Nothing but the step under
+// test may come between the two (reads through the public API are this side's own history).
+func (s *side) mark() {
+	s.deep = deepHash(s.c)
+	if runlog.Env().Replay != "" {
+		s.deepText = ucfg.VerifDeepHash(s.c)
+	}
+}
+
+func (s *side) untouched(after string) error {
+	if deepHash(s.c) == s.deep {
+		return nil
+	}
+	detail := "(replay the case for the place of the difference)"
+	if s.deepText != "" {
+		detail = diffAt(s.deepText, ucfg.VerifDeepHash(s.c))
+	}
+	return fmt.Errorf("state reachable from the %s (every field of every object, by reflection) was written to %s\n%s\n--- stored tree now\n%s", s.name, after, detail, ucfg.VerifFingerprint(s.c, true))
 }
 
 func (s *side) snap(opts []ucfg.Option) error {
@@ -161,7 +233,28 @@ func (s *side) snap(opts []ucfg.Option) error {
 	if err != nil {
 		s.dump = "error: " + err.Error()
 	}
+	s.view = publicView(s.c, opts)
 	return nil
+}
+
+// diffAt shows where two renderings part.
+func diffAt(a, b string) string {
+	i := 0
+	for i < len(a) && i < len(b) && a[i] == b[i] {
+		i++
+	}
+	lo := i - 120
+	if lo < 0 {
+		lo = 0
+	}
+	cut := func(s string) string {
+		hi := i + 200
+		if hi > len(s) {
+			hi = len(s)
+		}
+		return s[lo:hi]
+	}
+	return fmt.Sprintf("first difference at byte %d:\n before ...%s\n after  ...%s", i, cut(a), cut(b))
 }
 
 // parentLinks checks the stored tree of c: every value names the config that actually contains it as its parent
@@ -205,6 +298,13 @@ func (s *side) unchanged(opts []ucfg.Option, after string) error {
 	if fp := ucfg.VerifFingerprint(s.c, true); fp != s.fp {
 		return fmt.Errorf("the %s changed %s:\n--- stored tree before\n%s--- after\n%s", s.name, after, s.fp, fp)
 	}
+	// before any read through the public API: nothing reachable from this side was written to since mark
+	if err := s.untouched(after); err != nil {
+		return err
+	}
+	if v := publicView(s.c, opts); v != s.view {
+		return fmt.Errorf("the %s shows different settings through GetFields/Child/String %s:\n before %s\n after  %s", s.name, after, s.view, v)
+	}
 	d, err := uc.Dump(s.c, opts...)
 	now := canon.Show(d)
 	if err != nil {
@@ -217,6 +317,14 @@ func (s *side) unchanged(opts []ucfg.Option, after string) error {
 }
 
 func runCase(c Case, r *runlog.R) error {
+	// class labels once per case
+	labelled := map[string]bool{}
+	class := func(l string) {
+		if !labelled[l] {
+			labelled[l] = true
+			r.Class(l)
+		}
+	}
 	opts := []ucfg.Option{ucfg.PathSep("."), ucfg.VarExp}
 	if c.NoSep {
 		opts = []ucfg.Option{ucfg.VarExp}
@@ -252,14 +360,50 @@ func runCase(c Case, r *runlog.R) error {
 			if oc.SetChild("orig", -1, section) == nil && sub.SetChild("alias", -1, section) == nil {
 				owner = &side{name: "configuration the source adopted a section from", c: oc}
 				owner.snap(opts)
-				r.Class("source holds a section adopted from another configuration")
+				class("source holds a section adopted from another configuration")
 			}
 		}
+	}
+	// the history of the source before the merge: writes, then reads
+	handles := map[bool][]*ucfg.Config{}
+	for _, op := range c.PreOps {
+		if op.OnSrc {
+			applyOp(op, S, nil, nil, opts, nil, class)
+			class("write/read on the source before the merge")
+		}
+	}
+	nullObj := false
+	for _, rd := range c.Pre {
+		if !rd.OnSrc {
+			continue
+		}
+		var hs []*ucfg.Config
+		what, err := doRead(S, rd, opts, &hs)
+		handles[true] = append(handles[true], hs...)
+		if err != nil {
+			return fmt.Errorf("read on the source before the merge: %s: %v", what, err)
+		}
+		class("read on the source before the merge")
+		if k := rd.Kind % nReadKinds; (k == 0 || k == 2 || k == 3 || k == 8 || k == 9 || k == 10) && pathMeetsNull(srcTreeOf(c), rd.Name, rd.Idx, c.NoSep) {
+			nullObj = true
+		}
+	}
+	if c.KeepHandles {
+		handles[true] = append(handles[true], topHandles(S, opts)...)
+		class("Child handles of all top-level settings taken before the merge")
+	}
+	r.ClassIf(nullObj, "a null of the source (per the generated tree) was read as an object before the merge")
+	if owner != nil {
+		owner.snap(opts) // the history above may have written into the adopted section, which the two share (finding D14)
 	}
 	src := &side{name: "source", c: S}
 	src.snap(opts)
 	pathBefore, parentBefore := S.Path("."), S.Parent()
 	refBefore := readRefs(S, opts)
+	src.mark()
+	if owner != nil {
+		owner.mark()
+	}
 
 	in, nested := embed(c.Embed, S)
 	mopts := append(append([]ucfg.Option{}, opts...), uc.PolicyOpts(c.Policy)...)
@@ -278,16 +422,17 @@ func runCase(c Case, r *runlog.R) error {
 		if err != nil {
 			return fmt.Errorf("building the destination failed: %v", err)
 		}
+		preReadDst(c, second, opts, class, nil)
 		uc.Safe("Collector.Add", func() error { return col.Add(second, nil) })
 		D = col.Config()
-		r.Class("destination collected by a cfgutil.Collector")
+		class("destination collected by a cfgutil.Collector")
 	} else if c.ViaNew {
 		if err := uc.Safe("NewFrom", func() (e error) { D, e = ucfg.NewFrom(in, mopts...); return }); err != nil {
 			if c.Embed >= 9 && !strings.Contains(err.Error(), "panicked") {
 				if e := src.unchanged(opts, "by a rejected NewFrom that embeds it"); e != nil {
 					return e
 				}
-				r.Class("merge rejected")
+				class("merge rejected")
 				return nil
 			}
 			return fmt.Errorf("NewFrom(value embedding the source) failed: %v", err)
@@ -296,6 +441,14 @@ func runCase(c Case, r *runlog.R) error {
 		if D, err = ucfg.NewFrom(c.Dst.Go(), opts...); err != nil {
 			return fmt.Errorf("building the destination failed: %v", err)
 		}
+		var hs []*ucfg.Config
+		if err := preReadDst(c, D, opts, class, &hs); err != nil {
+			return err
+		}
+		handles[false] = hs
+		if c.KeepHandles {
+			handles[false] = append(handles[false], topHandles(D, opts)...)
+		}
 		if err := uc.Safe("Merge", func() error { return D.Merge(in, mopts...) }); err != nil {
 			if c.Embed >= 9 && !strings.Contains(err.Error(), "panicked") {
 				// the sibling may collide with a setting of the source: the input is rejected, the source
@@ -303,7 +456,7 @@ func runCase(c Case, r *runlog.R) error {
 				if e := src.unchanged(opts, "by a rejected merge that embeds it"); e != nil {
 					return e
 				}
-				r.Class("merge rejected")
+				class("merge rejected")
 				return nil
 			}
 			return fmt.Errorf("Merge failed: %v", err)
@@ -334,6 +487,9 @@ func runCase(c Case, r *runlog.R) error {
 			return fmt.Errorf("source and destination share a %s/%s (address %x)", what, w2, a)
 		}
 	}
+	if err := disjoint(S, D, "after the merge"); err != nil {
+		return err
+	}
 	if err := parentLinks(D, "destination after the merge"); err != nil {
 		return err
 	}
@@ -352,30 +508,22 @@ func runCase(c Case, r *runlog.R) error {
 		if op.OnSrc {
 			target, other = src, dst
 		}
-		what := ""
-		uc.Safe("op", func() error {
-			switch op.Kind {
-			case 0:
-				what = fmt.Sprintf("SetInt(%q, %d)", op.Name, op.Idx)
-				target.c.SetInt(op.Name, op.Idx, 99, opts...)
-			case 1:
-				what = fmt.Sprintf("Remove(%q, %d)", op.Name, op.Idx)
-				target.c.Remove(op.Name, op.Idx, opts...)
-			case 2:
-				what = "Merge(append)"
-				target.c.Merge(map[string]interface{}{"a": map[string]interface{}{"zz": 1}, "sub": map[string]interface{}{"a": []int{7}}, "l": []interface{}{map[string]interface{}{"a": 5}}}, append([]ucfg.Option{ucfg.AppendValues}, opts...)...)
-			case 3:
-				what = fmt.Sprintf("SetString(%q, %d)", op.Name, op.Idx)
-				target.c.SetString(op.Name, op.Idx, "w", opts...)
-			case 4:
-				what = fmt.Sprintf("SetChild(%q, %d)", op.Name, op.Idx)
-				target.c.SetChild(op.Name, op.Idx, ucfg.MustNewFrom(map[string]interface{}{"n": 1}), opts...)
-			default:
-				what = "Merge(replace)"
-				target.c.Merge(map[string]interface{}{"a": 1, "l": []int{9}, "sub": map[string]interface{}{"q": true}}, append([]ucfg.Option{ucfg.ReplaceValues}, opts...)...)
+		other.mark()
+		what, remerged := applyOp(op, target.c, other.c, handles[op.OnSrc], opts, mopts, class)
+		if remerged {
+			class("later merge from the other side")
+		}
+		if remerged {
+			if err := disjoint(S, D, fmt.Sprintf("after op %d on the %s: %s", i, target.name, what)); err != nil {
+				return err
 			}
-			return nil
-		})
+			sa, da := ucfg.VerifAddrs(S), ucfg.VerifAddrs(D)
+			for a, w := range sa {
+				if w2, ok := da[a]; ok {
+					return fmt.Errorf("source and destination share a %s/%s (address %x) after op %d on the %s: %s", w, w2, a, i, target.name, what)
+				}
+			}
+		}
 		if err := other.unchanged(opts, fmt.Sprintf("after op %d on the %s: %s", i, target.name, what)); err != nil {
 			return err
 		}
@@ -416,7 +564,7 @@ func runCase(c Case, r *runlog.R) error {
 			if to.R1 != wantR1 || to.Via != envR1 {
 				return fmt.Errorf("the %s read with the %s as Env config in one call: r1 = %q (alone %q), a reference provided by the Env config = %q (the Env config's own r1 is %q)", self.name, env.name, to.R1, wantR1, to.Via, envR1)
 			}
-			r.Class("both trees evaluated in one read")
+			class("both trees evaluated in one read")
 		}
 	}
 	overlap := false
@@ -429,12 +577,164 @@ func runCase(c Case, r *runlog.R) error {
 	}
 	r.NonTrivialIf((nested || overlap) && len(c.Ops) > 0)
 	r.Class(fmt.Sprintf("embedding %d", c.Embed))
-	r.Class("policy=" + c.Policy.String())
+	class("policy=" + c.Policy.String())
 	r.ClassIf(c.AsChild, "source is a child")
 	r.ClassIf(c.Refs, "source has references")
 	r.ClassIf(c.ViaNew, "destination created by NewFrom")
 	r.ClassIf(c.NoSep, "no path separator")
 	return nil
+}
+
+// srcTreeOf: the data of the source incl. the reference settings run adds.
+func srcTreeOf(c Case) *gen.Tree {
+	if !c.Refs {
+		return c.Src
+	}
+	t := c.Src.Clone()
+	t.Put("r1", gen.Str("${a}"))
+	t.Put("r3", gen.Str("${sub}"))
+	return t
+}
+
+// topHandles: a Child handle for every top-level setting that can be had as one (in sorted order).
+func topHandles(c *ucfg.Config, opts []ucfg.Option) (out []*ucfg.Config) {
+	uc.Safe("Child", func() error {
+		names := append([]string{}, c.GetFields()...)
+		sort.Strings(names)
+		for _, n := range names {
+			if ch, err := c.Child(n, -1, ucfg.VarExp); err == nil && ch != nil {
+				out = append(out, ch)
+			}
+		}
+		return nil
+	})
+	return out
+}
+
+// preReadDst applies the reads of the history that come before the merge to the destination.
+func preReadDst(c Case, d *ucfg.Config, opts []ucfg.Option, class func(string), keep *[]*ucfg.Config) error {
+	for _, op := range c.PreOps {
+		if !op.OnSrc {
+			applyOp(op, d, nil, nil, opts, nil, class)
+			class("write/read on the destination before the merge")
+		}
+	}
+	for _, rd := range c.Pre {
+		if rd.OnSrc {
+			continue
+		}
+		var hs []*ucfg.Config
+		what, err := doRead(d, rd, opts, &hs)
+		if keep != nil {
+			*keep = append(*keep, hs...)
+		}
+		if err != nil {
+			return fmt.Errorf("read on the destination before the merge: %s: %v", what, err)
+		}
+		class("read on the destination before the merge")
+	}
+	return nil
+}
+
+// applyOp applies one step of a history to cfg. Outcomes (errors, panics) of the step itself are not this
+// property's business. other: the opposite side (nil before the merge); old: handles obtained from cfg with Child
+// before the merge.
+func applyOp(op Op, cfg, other *ucfg.Config, old []*ucfg.Config, opts, mopts []ucfg.Option, class func(string)) (what string, remerged bool) {
+	uc.Safe("op", func() error {
+		switch op.Kind % nOpKinds {
+		case 0:
+			what = fmt.Sprintf("SetInt(%q, %d)", op.Name, op.Idx)
+			cfg.SetInt(op.Name, op.Idx, 99, opts...)
+		case 1:
+			what = fmt.Sprintf("Remove(%q, %d)", op.Name, op.Idx)
+			cfg.Remove(op.Name, op.Idx, opts...)
+		case 2:
+			what = "Merge(append)"
+			cfg.Merge(map[string]interface{}{"a": map[string]interface{}{"zz": 1}, "sub": map[string]interface{}{"a": []int{7}}, "l": []interface{}{map[string]interface{}{"a": 5}}}, append([]ucfg.Option{ucfg.AppendValues}, opts...)...)
+		case 3:
+			what = fmt.Sprintf("SetString(%q, %d)", op.Name, op.Idx)
+			cfg.SetString(op.Name, op.Idx, "w", opts...)
+		case 4:
+			what = fmt.Sprintf("SetChild(%q, %d)", op.Name, op.Idx)
+			cfg.SetChild(op.Name, op.Idx, ucfg.MustNewFrom(map[string]interface{}{"n": 1}), opts...)
+		case 5:
+			what = "Merge(replace)"
+			cfg.Merge(map[string]interface{}{"a": 1, "l": []int{9}, "sub": map[string]interface{}{"q": true}}, append([]ucfg.Option{ucfg.ReplaceValues}, opts...)...)
+		case 6:
+			// a write through a handle obtained with Child (a null or a missing index is handed out as an object):
+			// obtained now, or one that was obtained before the merge
+			var ch *ucfg.Config
+			if (op.Read/5)%2 == 1 && len(old) > 0 {
+				ch = old[(op.Read/10)%len(old)]
+				what = fmt.Sprintf("a write (%d) through handle %d obtained with Child before the merge", op.Read%5, (op.Read/10)%len(old))
+				class("write through a Child handle obtained before the merge")
+			} else {
+				what = fmt.Sprintf("Child(%q, %d) and a write (%d) through the handle", op.Name, op.Idx, op.Read%5)
+				// the drawn path, or the longest prefix of it that Child hands out
+				name, idx := op.Name, op.Idx
+				for {
+					var err error
+					if ch, err = cfg.Child(name, idx, opts...); err == nil && ch != nil {
+						break
+					}
+					ch = nil
+					cut := strings.LastIndexByte(name, '.')
+					if idx >= 0 {
+						idx = -1
+					} else if cut > 0 {
+						name = name[:cut]
+					} else {
+						break
+					}
+				}
+				if ch == nil {
+					break
+				}
+				what = fmt.Sprintf("Child(%q, %d) and a write (%d) through the handle", name, idx, op.Read%5)
+				class("write through a Child handle")
+			}
+			switch op.Read % 5 {
+			case 0:
+				ch.SetInt("zz", -1, 7, opts...)
+			case 1:
+				ch.SetString("", 2, "w", opts...)
+			case 2:
+				ch.Merge(map[string]interface{}{"en": map[string]interface{}{"x": true}, "a": 3}, opts...)
+			case 3:
+				ch.Remove("a", -1, opts...)
+				ch.Remove("", 0, opts...)
+			default:
+				ch.SetChild("a", -1, ucfg.MustNewFrom(map[string]interface{}{"n": []int{1}}), opts...)
+			}
+		case 7:
+			// an object merged over whatever the setting is (null, primitive, list, object, missing)
+			var v interface{} = map[string]interface{}{"en": true, "a": map[string]interface{}{"x": 1}}
+			if op.Idx >= 0 {
+				l := make([]interface{}, op.Idx+1)
+				l[op.Idx] = v
+				v = l
+			}
+			what = fmt.Sprintf("Merge(object at %q, %d)", op.Name, op.Idx)
+			cfg.Merge(map[string]interface{}{op.Name: v}, opts...)
+			class("object merged at a drawn path")
+		case 8:
+			// the two sides meet again: the other side is merged into this one (same options as the first merge)
+			if other == nil {
+				what = "nothing"
+				break
+			}
+			what = "Merge(the other side)"
+			remerged = true
+			cfg.Merge(other, mopts...)
+		default:
+			rd := Read{Kind: op.Read, Name: op.Name, Idx: op.Idx}
+			what, _ = doRead(cfg, rd, opts)
+			what = "read " + what
+			class("read between the writes")
+		}
+		return nil
+	})
+	return what, remerged
 }
 
 func readRefs(s *ucfg.Config, opts []ucfg.Option) string {
@@ -452,11 +752,11 @@ func readRefs(s *ucfg.Config, opts []ucfg.Option) string {
 
 var subMerge = runlog.Register(&runlog.Sub[Case]{
 	Name: "merge-independence",
-	Rule: "a source config (optionally with references to its own settings, optionally a child of a larger config) is merged from directly or embedded in a map, list (twice), struct field and slice, pointer to pointer, top-level list, inline field, typed map of configs, interface-keyed map with arrays, next to dotted keys of the same input that define settings below or overlapping the embedded config, and as a struct field next to an inlined map/struct that lands under the same name; with and without a path separator; destination overlapping or created by NewFrom; all five policies; then 1-6 writes (SetInt, SetString with index, SetChild, Remove, append-merge, replace-merge) on either side. Oracle: stored tree of the source incl. names, parent links and addresses (hook fingerprint) identical before/after, Path/Parent/Unpack/own references unchanged; address sets of configs, field tables, maps and list backings disjoint; every stored value of either tree names the config that contains it as its parent (after the merge and after every write); after every write the other side's fingerprint and Unpack are unchanged. Non-trivial: source embedded below the top level or merged over an overlapping destination, and at least one later write. Distinct: hash of the case.",
+	Rule: "a source config (optionally with references to its own settings, optionally a child of a larger config, optionally holding a section adopted from another configuration) is merged from directly or embedded in a map, list (twice), struct field and slice, pointer to pointer, top-level list, inline field, typed map of configs, interface-keyed map with arrays, next to dotted keys of the same input that define settings below or overlapping the embedded config, as a struct field next to an inlined map/struct that lands under the same name, and in unusual representations (**Config, *interface{}, rebranded type); with and without a path separator; with and without provenance metadata on either side; destination overlapping, created by NewFrom or collected by a cfgutil.Collector; all five policies. HISTORY BEFORE THE MERGE: 0-3 writes/reads (the ten step kinds below except the cross merge) and 0-4 reads (twelve kinds: Has, String, Child, Child+GetFields/Path/Parent/CountField, CountField, Unpack into a map / a typed struct with *Config, Config, map and pointer fields, FlattenedKeys, typed getters, Has/Unpack through a Child handle, PathOf/IsDict/IsArray/HasField) on the source (3 of 4) or the destination, at paths drawn from the generated trees (a walk to any node, optionally one segment further so that the node - null, primitive, list, object - is read as an object) or from a fixed list; Child handles obtained there are kept; in a third of the cases a Child handle of every top-level setting of both sides is taken as well. HISTORY AFTER THE MERGE: 1-6 steps on either side: SetInt, SetString with index, SetChild, Remove, append-merge, replace-merge, a write (SetInt, indexed SetString, Merge, Remove, SetChild) through a Child handle obtained now (at the drawn path or its longest prefix that is an object) or before the merge, an object merged at a drawn path, a merge from the OTHER side (the two meet again, either direction, same options), a read (the twelve kinds). Oracle: around the first merge and around every later step the side that is not operated on must be identical in (a) the stored tree incl. names, parent links and addresses (hook fingerprint), (b) a hash over everything reachable from it by reflection - every field of every object incl. addresses, so also state the hook does not know (taken immediately before and after the step, before any read), (c) Unpack, (d) the public walk GetFields/Child/String that enters every setting, nulls included, as an object and records Path and Parent of each handle; for the source also Path/Parent/own references. After the first merge and after every cross merge: hook address sets (configs, field tables, maps, list backings) disjoint, and the sets of ALL objects reachable by reflection disjoint except *Meta and parsed expression nodes (never written after construction). Every stored value of either tree names the config that contains it as its parent (after the merge and after every step). At the end each side is read with the other as Env config in one call. Non-trivial: source embedded below the top level or merged over an overlapping destination, and at least one later step. Distinct: hash of the case.",
 	Gen:  genCase,
 	Run:  runCase,
 })
 
-func TestMergeIndependence(t *testing.T) { subMerge.Check(t, 100000, 3000000) }
+func TestMergeIndependence(t *testing.T) { subMerge.Check(t, 50000, 1500000) }
 
 func TestReplay(t *testing.T) { runlog.ReplayMain(t) }
